@@ -1,6 +1,7 @@
 package main
 
 import (
+	"strings"
 	"fmt"
 	"go/types"
 	"math/big"
@@ -178,6 +179,65 @@ func init() {
 			errV := res[2].(VIface)
 			st.Assume(Implies(Eq(errV.Tag, TZero), And(Le(TZero, n), Le(n, b.Len), Neq(addr.Ref, TZero))))
 			k(st, res)
+		},
+		// x/crypto/ssh server handshake (assumed contract, from the library's documentation): the
+		// PublicKeyCallback may be invoked for keys the client merely offers, in any order and more
+		// than once; the connection carries the Permissions returned for the key that authenticated.
+		// Modelled as: the callback runs for two arbitrary keys, either of which may be the one that
+		// authenticated; its Permissions end up in ServerConn.Permissions. Ghost: the authenticated key.
+		"golang.org/x/crypto/ssh.NewServerConn": func(e *Engine, st *State, fr *Frame, site ssa.Instruction, callee *ssa.Function, args []Value, k cont) {
+			var cb *VFunc
+			for _, vf := range st.funcs {
+				vf := vf
+				if vf.Fn != nil && vf.Fn.Signature.Params().Len() == 2 && vf.Fn.Signature.Results().Len() == 2 &&
+					strings.HasSuffix(vf.Fn.Signature.Params().At(1).Type().String(), "ssh.PublicKey") {
+					cb = &vf
+				}
+			}
+			if cb == nil {
+				panic(unsupported("ssh.NewServerConn: no PublicKeyCallback closure in sight"))
+			}
+			mkKey := func(s *State, hint string) VIface {
+				v := VIface{Tag: e.sym.Fresh("sshkey!"+hint+"!tag", SInt), Val: e.sym.Fresh("sshkey!"+hint+"!val", SInt)}
+				s.Assume(Neq(v.Tag, TZero))
+				return v
+			}
+			md := VIface{Tag: e.sym.Fresh("sshmd!tag", SInt), Val: e.sym.Fresh("sshmd!val", SInt)}
+			kA := mkKey(st, "a")
+			e.callFunction(st, fr, site, cb.Fn, cb.Bind, []Value{md, kA}, func(s1 *State, rA []Value) {
+				kB := mkKey(s1, "b")
+				e.callFunction(s1, fr, site, cb.Fn, cb.Bind, []Value{md, kB}, func(s2 *State, rB []Value) {
+					authA := e.sym.Fresh("sshauth!a", SBool)
+					pick := func(a, b Term) Term { return Ite(authA, a, b) }
+					pA, pB := rA[0].(VPtr), rB[0].(VPtr)
+					eA, eB := rA[1].(VIface), rB[1].(VIface)
+					res := e.freshResults(s2, callee.Signature, "NewServerConn")
+					sc := res[0].(VPtr)
+					errV := res[3].(VIface)
+					ok := Eq(errV.Tag, TZero)
+					// success: the authenticated key's callback had returned no error
+					s2.Assume(Implies(ok, And(Neq(sc.Ref, TZero), Eq(pick(eA.Tag, eB.Tag), TZero))))
+					perm := VPtr{Ref: pick(pA.Ref, pB.Ref), Idx: pick(pA.Idx, pB.Idx), Root: pA.Root, ArrLen: -1}
+					if scT, isPtr := callee.Signature.Results().At(0).Type().(*types.Pointer); isPtr {
+						fp := VPtr{Ref: sc.Ref, Idx: sc.Idx, Root: scT.Elem(), ArrLen: -1, Path: []Step{{Field: "Permissions"}}}
+						e.storePtr(s2, fp, perm)
+					}
+					s2.ghost["ssh!auth!tag"] = pick(kA.Tag, kB.Tag)
+					s2.ghost["ssh!auth!val"] = pick(kA.Val, kB.Val)
+					k(s2, res)
+				})
+			})
+		},
+		"(*golang.org/x/crypto/ssh.ServerConfig).AddHostKey": noop,
+		"golang.org/x/crypto/ssh.FingerprintSHA256": func(e *Engine, st *State, fr *Frame, site ssa.Instruction, callee *ssa.Function, args []Value, k cont) {
+			// a function of the key; collision resistance is assumed (the key is recoverable from it)
+			key := args[0].(VIface)
+			f := e.sym.Func("ssh_fp", []string{SInt, SInt}, SStr)
+			it := e.sym.Func("ssh_fp_inv_tag", []string{SStr}, SInt)
+			iv := e.sym.Func("ssh_fp_inv_val", []string{SStr}, SInt)
+			r := app(SStr, f, key.Tag, key.Val)
+			st.Assume(And(Eq(app(SInt, it, r), key.Tag), Eq(app(SInt, iv, r), key.Val)))
+			k(st, []Value{VStr{r}})
 		},
 		"bytes.Compare": func(e *Engine, st *State, fr *Frame, site ssa.Instruction, callee *ssa.Function, args []Value, k cont) {
 			a, b := args[0].(VSlice), args[1].(VSlice)
